@@ -19,22 +19,18 @@ REC = common.REC
 VALS = st.sampled_from([0.0, 1.0, -1.0, 0.5, 0.25, -2.75, 3.0, 1e-3, 1e3, 0.1, -0.3, 7.125])
 
 
-class Exec:
+class Exec(common.BaseExec):
+    PROP = "C16"
+
     """Applies recorded operations to the real model and the reference; raises Violation."""
 
-    def __init__(self):
-        self.ops = []
-        self.model = None
 
     def fail(self, cls, detail):
-        raise Violation(f"C16:{cls}", detail, list(self.ops))
+        self.violation(f"C16:{cls}", detail)
 
-    def apply(self, op):
+    def _apply(self, op):
         from vopy.models import EmpiricalMeanVarModel
 
-        self.ops.append(op)
-        REC.ops[op[0]] += 1
-        REC.steps += 1
         name = op[0]
         if name == "init":
             _, d_in, m, nv, n, tm, tv = op
